@@ -511,8 +511,8 @@ def parse_authority(authority: bytes) -> list[Node]:
         )
     if not host:
         return out
-    if userinfo:
-        offset += 1  # for the @
+    if b"@" in authority:
+        offset = len(userinfo) + 1  # the host starts after the @, whatever parts of the userinfo are empty
     host = unquote_to_bytes(host)
     if host.startswith(b"["):
         if not host.endswith(b"]"):
